@@ -19,6 +19,7 @@ package main
 
 import (
 	"bytes"
+	"encoding/json"
 	"fmt"
 	"go/ast"
 	"go/parser"
@@ -32,26 +33,52 @@ import (
 )
 
 type item struct {
-	file  string // output file (without .v)
-	kind  string
-	pkg   string // directory relative to repo root
-	name  string // Go identifier (const/var) or function name for cmplit
-	lhs   string // cmplit: text of the left operand
-	op    string // cmplit: operator
-	coq   string // Coq identifier
-	ctype string // "N", "Z" or "nat"
+	File  string `json:"file"`  // output file (without .v); set from the items file
+	Kind  string `json:"kind"`
+	Pkg   string `json:"pkg"`   // directory relative to repo root
+	Name  string `json:"name"`  // Go identifier (const/var) or function name
+	Lhs   string `json:"lhs"`   // cmplit: text of the left operand
+	Op    string `json:"op"`    // cmplit: operator
+	Coq   string `json:"coq"`   // Coq identifier
+	Ctype string `json:"ctype"` // "N", "Z" or "nat"
+	Arg   string `json:"arg"`   // free argument for custom kinds
 }
 
-var items = []item{
-	{file: "Consts", kind: "const", pkg: "parser", name: "bufferSize", coq: "parser_bufferSize", ctype: "nat"},
-	{file: "Consts", kind: "const", pkg: "cff", name: "maxStack", coq: "cff_maxStack", ctype: "nat"},
-	{file: "Consts", kind: "cmplit", pkg: "opentype/gtab", name: "applyAtRecursively", lhs: "numActions", op: "<", coq: "gtab_actionBudget", ctype: "nat"},
-	{file: "Consts", kind: "cmplit", pkg: "opentype/gtab", name: "readLookupList", lhs: "numLookups + numSubTables", op: ">", coq: "gtab_maxLookupObjects", ctype: "N"},
-	{file: "Consts", kind: "cmplit", pkg: "header", name: "Read", lhs: "numTables", op: ">", coq: "header_maxTables", ctype: "N"},
-	{file: "Consts", kind: "const", pkg: "header", name: "ScalerTypeTrueType", coq: "header_scalerTrueType", ctype: "N"},
-	{file: "Consts", kind: "const", pkg: "header", name: "ScalerTypeCFF", coq: "header_scalerCFF", ctype: "N"},
-	{file: "Consts", kind: "const", pkg: "header", name: "ScalerTypeApple", coq: "header_scalerApple", ctype: "N"},
-	{file: "Consts", kind: "tagprio", pkg: "header", name: "ttTableOrder", coq: "header_ttTableOrder"},
+type itemsFile struct {
+	File    string   `json:"file"`
+	Imports []string `json:"imports"` // extra Require lines
+	Items   []item   `json:"items"`
+}
+
+// kinds can be extended by further files of this package (kind_*.go) through
+// init(): kinds["name"] = func(root string, p *pkgInfo, it item) (string, error).
+var kinds = map[string]func(root string, p *pkgInfo, it item) (string, error){}
+
+func loadItems(dir string) ([]itemsFile, error) {
+	ents, err := os.ReadDir(dir)
+	if err != nil {
+		return nil, err
+	}
+	var out []itemsFile
+	for _, e := range ents {
+		if !strings.HasSuffix(e.Name(), ".json") {
+			continue
+		}
+		b, err := os.ReadFile(filepath.Join(dir, e.Name()))
+		if err != nil {
+			return nil, err
+		}
+		var f itemsFile
+		if err := json.Unmarshal(b, &f); err != nil {
+			return nil, fmt.Errorf("%s: %v", e.Name(), err)
+		}
+		if f.File == "" {
+			f.File = strings.TrimSuffix(e.Name(), ".json")
+		}
+		out = append(out, f)
+	}
+	sort.Slice(out, func(i, j int) bool { return out[i].File < out[j].File })
+	return out, nil
 }
 
 type pkgInfo struct {
@@ -239,39 +266,39 @@ func tagN(s string) (int64, error) {
 }
 
 func gen(root string, it item) (string, error) {
-	p, err := loadPkg(root, it.pkg)
+	p, err := loadPkg(root, it.Pkg)
 	if err != nil {
 		return "", err
 	}
-	src := fmt.Sprintf("(* %s: %s %s.%s *)\n", it.kind, it.pkg, it.name, it.lhs)
-	switch it.kind {
+	src := fmt.Sprintf("(* %s: %s %s.%s *)\n", it.Kind, it.Pkg, it.Name, it.Lhs)
+	switch it.Kind {
 	case "const":
-		v, gd, si := p.findValue(it.name)
+		v, gd, si := p.findValue(it.Name)
 		if gd == nil {
 			return "", fmt.Errorf("not found")
 		}
 		var val int64
 		if v == nil {
-			val, err = p.evalInt(&ast.Ident{Name: it.name}, int64(si))
+			val, err = p.evalInt(&ast.Ident{Name: it.Name}, int64(si))
 		} else {
 			val, err = p.evalInt(v, int64(si))
 		}
 		if err != nil {
 			return "", err
 		}
-		return src + fmt.Sprintf("Definition %s : %s := %s.\n", it.coq, it.ctype, coqInt(val, it.ctype)), nil
+		return src + fmt.Sprintf("Definition %s : %s := %s.\n", it.Coq, it.Ctype, coqInt(val, it.Ctype)), nil
 	case "cmplit":
-		fd := p.findFunc(it.name)
+		fd := p.findFunc(it.Name)
 		if fd == nil {
 			return "", fmt.Errorf("function not found")
 		}
 		var found []int64
 		ast.Inspect(fd, func(n ast.Node) bool {
 			be, ok := n.(*ast.BinaryExpr)
-			if !ok || be.Op.String() != it.op {
+			if !ok || be.Op.String() != it.Op {
 				return true
 			}
-			if p.exprText(be.X) != it.lhs {
+			if p.exprText(be.X) != it.Lhs {
 				return true
 			}
 			v, err := p.evalInt(be.Y, 0)
@@ -281,11 +308,11 @@ func gen(root string, it item) (string, error) {
 			return true
 		})
 		if len(found) != 1 {
-			return "", fmt.Errorf("expected exactly one comparison `%s %s <literal>`, found %d", it.lhs, it.op, len(found))
+			return "", fmt.Errorf("expected exactly one comparison `%s %s <literal>`, found %d", it.Lhs, it.Op, len(found))
 		}
-		return src + fmt.Sprintf("Definition %s : %s := %s.\n", it.coq, it.ctype, coqInt(found[0], it.ctype)), nil
+		return src + fmt.Sprintf("Definition %s : %s := %s.\n", it.Coq, it.Ctype, coqInt(found[0], it.Ctype)), nil
 	case "intlist":
-		v, gd, _ := p.findValue(it.name)
+		v, gd, _ := p.findValue(it.Name)
 		if gd == nil || v == nil {
 			return "", fmt.Errorf("not found")
 		}
@@ -302,11 +329,11 @@ func gen(root string, it item) (string, error) {
 			if err != nil {
 				return "", err
 			}
-			parts = append(parts, coqInt(x, it.ctype))
+			parts = append(parts, coqInt(x, it.Ctype))
 		}
-		return src + fmt.Sprintf("Definition %s : list %s := [%s].\n", it.coq, it.ctype, strings.Join(parts, "; ")), nil
+		return src + fmt.Sprintf("Definition %s : list %s := [%s].\n", it.Coq, it.Ctype, strings.Join(parts, "; ")), nil
 	case "strlist":
-		v, gd, _ := p.findValue(it.name)
+		v, gd, _ := p.findValue(it.Name)
 		if gd == nil || v == nil {
 			return "", fmt.Errorf("not found")
 		}
@@ -326,9 +353,9 @@ func gen(root string, it item) (string, error) {
 			}
 			parts = append(parts, coqString(s))
 		}
-		return src + fmt.Sprintf("Definition %s : list string := [%s]%%string.\n", it.coq, strings.Join(parts, ";\n  ")), nil
+		return src + fmt.Sprintf("Definition %s : list string := [%s]%%string.\n", it.Coq, strings.Join(parts, ";\n  ")), nil
 	case "tagprio":
-		v, gd, _ := p.findValue(it.name)
+		v, gd, _ := p.findValue(it.Name)
 		if gd == nil || v == nil {
 			return "", fmt.Errorf("not found")
 		}
@@ -366,41 +393,53 @@ func gen(root string, it item) (string, error) {
 		for _, x := range kvs {
 			parts = append(parts, fmt.Sprintf("(%d%%N, %d%%Z)", x.k, x.v))
 		}
-		return src + fmt.Sprintf("Definition %s : list (N * Z) := [%s].\n", it.coq, strings.Join(parts, "; ")), nil
+		return src + fmt.Sprintf("Definition %s : list (N * Z) := [%s].\n", it.Coq, strings.Join(parts, "; ")), nil
 	}
-	return "", fmt.Errorf("unknown kind %s", it.kind)
+	if f, ok := kinds[it.Kind]; ok {
+		body, err := f(root, p, it)
+		if err != nil {
+			return "", err
+		}
+		return src + body, nil
+	}
+	return "", fmt.Errorf("unknown kind %s", it.Kind)
 }
 
 func main() {
-	if len(os.Args) != 3 {
-		fmt.Fprintln(os.Stderr, "usage: gen <repo-root> <out-dir>")
+	if len(os.Args) != 4 {
+		fmt.Fprintln(os.Stderr, "usage: gen <repo-root> <items-dir> <out-dir>")
 		os.Exit(2)
 	}
-	root, out := os.Args[1], os.Args[2]
-	files := map[string]*strings.Builder{}
-	var order []string
-	failed := false
-	for _, it := range items {
-		b, ok := files[it.file]
-		if !ok {
-			b = &strings.Builder{}
-			b.WriteString("(* GENERATED by /verif/translators/gen from the Go sources. Do not edit. *)\n")
-			b.WriteString("From Coq Require Import List NArith ZArith String.\nImport ListNotations.\n\n")
-			files[it.file] = b
-			order = append(order, it.file)
-		}
-		s, err := gen(root, it)
-		if err != nil {
-			fmt.Printf("LOST %s %s.%s: %v\n", it.coq, it.pkg, it.name, err)
-			failed = true
-			continue
-		}
-		b.WriteString(s)
-		b.WriteString("\n")
+	root, itemsDir, out := os.Args[1], os.Args[2], os.Args[3]
+	ifs, err := loadItems(itemsDir)
+	if err != nil {
+		fmt.Fprintln(os.Stderr, err)
+		os.Exit(2)
 	}
-	for _, f := range order {
-		path := filepath.Join(out, f+".v")
-		newc := files[f].String()
+	failed := false
+	for _, f := range ifs {
+		b := &strings.Builder{}
+		b.WriteString("(* GENERATED by /verif/translators/gen from the Go sources. Do not edit. *)\n")
+		b.WriteString("From Coq Require Import List NArith ZArith String.\nImport ListNotations.\n")
+		for _, im := range f.Imports {
+			b.WriteString(im + "\n")
+		}
+		b.WriteString("\n")
+		for _, it := range f.Items {
+			it.File = f.File
+			s, err := gen(root, it)
+			if err != nil {
+				// the definition is left out: proofs that depend on it break,
+				// which is what must happen
+				fmt.Printf("LOST %s %s.%s: %v\n", it.Coq, it.Pkg, it.Name, err)
+				failed = true
+				continue
+			}
+			b.WriteString(s)
+			b.WriteString("\n")
+		}
+		path := filepath.Join(out, f.File+".v")
+		newc := b.String()
 		old, err := os.ReadFile(path)
 		if err == nil && string(old) == newc {
 			continue
